@@ -549,9 +549,9 @@ func (c *Ctx) ruleProofHash() {
 }
 
 func init() {
-	register("C38", "walker/prefix rules on the key-listing path + resolved call chain from the RPC (R-KEYMATCH/K2, R-PREFIX, R-PREORDER(addAllKeys), R-CALLCHAIN)",
+	register("C38", "walker/prefix rules on the key-listing path + resolved call chain from the RPC (R-KEYMATCH/K2, R-PREFIX, R-PREORDER(addAllKeys), R-CALLCHAIN, R-PAGECURSOR)",
 		"Decides: state_getKeysPaged/GetKeysWithPrefix reach (*InMemoryTrie).GetKeysWithPrefix through the resolved call chain; the prefix walker only descends through a partial key that is a prefix of the search prefix (no panic, no unrelated subtree); the byte prefix reaches the walker as exactly 2*len nibbles (the trimmed trailing zero nibble is the recorded finding D3); keys of a subtree are appended in pre-order (the branch's own key first), which is ascending byte order. "+
-			"Not decided: the paging arithmetic over hex strings in the RPC module.",
+			"The paging cursor is decided structurally (R-PAGECURSOR: strict comparison against the client's after-key only, never defaulted to the prefix). Not decided: that comparing lower-case hex strings equals byte order for every client-supplied after-key spelling.",
 		"none beyond the Go type checker", "DESIGN.md §3 R-KEYMATCH, R-PREFIX; §4 C38",
 		func(c *Ctx) {
 			c.load("pkg/trie/inmemory", "pkg/trie/node", "dot/state", "dot/rpc/modules")
@@ -561,6 +561,8 @@ func init() {
 			c.min("R-PREFIX", 1)
 			c.rulePreorder("addAllKeys")
 			c.min("R-PREORDER", 1)
+			c.rulePageCursor()
+			c.min("R-PAGECURSOR", 2)
 			// call chain
 			c.doc("R-CALLCHAIN", "StateModule.GetKeysPaged -> StorageAPI.GetKeysWithPrefix -> (*InmemoryStorageState).GetKeysWithPrefix -> TrieState.GetKeysWithPrefix -> (*InMemoryTrie).GetKeysWithPrefix")
 			chain := [][2]string{{"dot/rpc/modules", "(*StateModule).GetKeysPaged"}, {"dot/state", "(*InmemoryStorageState).GetKeysWithPrefix"}}
